@@ -241,7 +241,8 @@ def work(item):
 def run(ctx):
     res = core.Result()
     all_names = drive.shipped_archs() + ["isa/x86", "isa/aarch64"]
-    small = ["zen1", "n1", "tx2", "a64fx", "tsv110", "a72", "isa/x86", "isa/aarch64"]
+    # zen3: the only shipped model with forms that carry port pressure but throughput 0
+    small = ["zen1", "zen3", "n1", "tx2", "a64fx", "tsv110", "a72", "isa/x86", "isa/aarch64"]
     drive.stage(ctx, all_names)
     # parse the ISA databases once, before workers could race on their cache files
     drive.stage_and_parse(ctx, ["isa/x86", "isa/aarch64"])
@@ -275,7 +276,7 @@ def run(ctx):
                 "plain YAML: micro-op lists (and alternatives) [cycles >= 0, non-empty ports within the "
                 "port list], throughput/latency absent or >= 0, load/store tables and defaults; one "
                 "instruction synthesised per entry is costed through add_semantics + two balancing "
-                "passes + KernelDG (quick: the 6 small models and both ISA databases; thorough: all); "
+                "passes + KernelDG (quick: 7 small models and both ISA databases; thorough: all); "
                 "--db-check counts of every model vs. counts from the plain file")
     res.exhaustive = True
     res.assumptions = ["entries whose operand pattern cannot be written as an instruction are counted "
